@@ -755,12 +755,15 @@ func materialiseCase(dir string, sc *cases.ScanCase) (*gitrepo.Repo, error) {
 			}
 		}
 	}
-	if sc.Gitconfig != "" {
+	if sc.Gitconfig != "" || sc.StyleViaConfig {
 		f, err := os.OpenFile(filepath.Join(r.GitDir, "config"), os.O_APPEND|os.O_WRONLY, 0o644)
 		if err != nil {
 			return nil, err
 		}
 		f.WriteString(sc.Gitconfig)
+		if sc.StyleViaConfig {
+			f.WriteString("[sizer]\n\tnames = " + sc.Style + "\n")
+		}
 		f.Close()
 	}
 	if sc.Noise {
@@ -821,6 +824,9 @@ func (e *scanEnv) runCLI(sc cases.ScanCase, opt cliOpt) (*cliRun, error) {
 		res.Case.Roots[i].Name = expandPlaceholders(res.Case.Roots[i].Name, r)
 	}
 	args := []string{"--json", "--names=" + sc.Style}
+	if sc.StyleViaConfig {
+		args = []string{"--json"} // the style comes from sizer.names
+	}
 	if opt.Progress {
 		args = append(args, "--progress")
 	} else {
@@ -925,6 +931,9 @@ func (e *scanEnv) runCLI(sc cases.ScanCase, opt cliOpt) (*cliRun, error) {
 	}
 	if opt.Formats && res.Exit == 0 {
 		base := []string{"--names=" + sc.Style, "--no-progress"}
+		if sc.StyleViaConfig {
+			base = []string{"--no-progress"}
+		}
 		for _, a := range sc.Args {
 			base = append(base, expandPlaceholders(a, r))
 		}
